@@ -33,7 +33,7 @@ func freshWith(newState bool, u *gen.Universe, blocks []*gen.Block) (*node.Node,
 }
 
 func TestPropRevertAndForkConvergence(t *testing.T) {
-	stats.Check(t, stats.Budget{Quick: 150, Thorough: 2500},
+	stats.Check(t, stats.Budget{Quick: 300, Thorough: 2500},
 		"common prefix (0-4 blocks) + fork F1 (1-4 blocks) + fork F2 (1-4 blocks), fork point anywhere incl. genesis, both state backends; node A stores prefix+F1, reverts F1 block by block (each revert must succeed and leave A observationally equal to a fresh node holding the remaining blocks: whole Reader API over all ids incl. reverted hashes, state at every block/hash, per-address event queries), then stores F2 and must equal node B that stored prefix+F2 directly; non-trivial = F1 contains declare+deploy+touch, a zero write, a system-contract write, a CASM migration, an L1 handler or a replaced class",
 		func(rt *rapid.T, c *stats.Case) {
 			u := gen.NewUniverse(rt)
